@@ -1014,11 +1014,13 @@ with the default string schema, `null.*`), its codec `c` and a well-typed value 
 model reads back (`normCodec … c g`, by `roundTrip`) and the written value agree up to the documented
 normalisations and the three recorded deviations D27, D30, D32:
 `normSpec T (normCodec c g) = normSpecD 7 T g`.
-Excluded: named (`custom`) types, uint/int8/complex/array kinds, structs with skipped (unexported or
-"-") fields or clashing names, non-default time schemas (long / date logical types), `null.Float`
-under a `float` schema; for those nothing is claimed. That `fieldCodec` is the codec the builder model
-yields for the generated schema is checked on concrete types only (`example … tBig`, `cPP_built`, …),
-not proved in general. -/
+Excluded: named (`custom`) types, uint/int8/complex/array kinds, structs with clashing names,
+non-default time schemas (long / date logical types), `null.Float` under a `float` schema; for those
+nothing is claimed. `fieldCodec` is also defined for structs with skipped (unexported or "-") fields,
+but `Typed` asks that every field of a struct value is encoded: a skipped field is not written and
+reads back as its zero value. That `fieldCodec` is the codec the builder model yields for the
+generated schema is proved in general in `Lemmas/TypeCodec.lean` (`built_is_fieldCodec`); the
+`example … tBig`, `cPP_built`, … here are instances. -/
 theorem normSpec_agrees (hlaws : EnvLaws env) (N M n n' : Nat) (T : GoType) (oe : Bool) (c : Codec) (g : GoVal)
     (hc : fieldCodec N T oe = some c) (ht : Typed M T g) (hn : N ≤ n) (hn' : N ≤ n') :
     normSpec n' T oe (normCodec env n c g) = normSpecD 7 n' T oe g :=
